@@ -214,10 +214,12 @@ def rule_no_signal(ctx):
     raises = [n for n in own_nodes(fn) if isinstance(n, (ast.Raise, ast.Assert))]
     ctx.check(R, not raises, fi.qname, "no raise / assert", "processClientKeyExchange must not raise for any "
               "malformed premaster (the failure may only surface at Finished)", fi.loc(raises[0]) if raises else fi.loc())
+    # every exit is a return (which value it returns for which plaintext is decided below, class by class)
     rets = [n for n in own_nodes(fn) if isinstance(n, ast.Return)]
-    ctx.check(R, len(rets) == 1 and fn.body[-1] is rets[0], fi.qname, "single return at the end",
-              "processClientKeyExchange must have exactly one exit, at its end (an early return changes what "
-              "the server does next)", fi.loc())
+    ctx.check(R, len(rets) >= 1 and all(r.value is not None for r in rets) and isinstance(fn.body[-1], ast.Return),
+              fi.qname, "every exit returns a premaster secret",
+              "processClientKeyExchange must end every path by returning a premaster secret (falling off the "
+              "end or returning nothing changes what the server does next)", fi.loc())
     loops = [n for n in own_nodes(fn) if isinstance(n, (ast.For, ast.While, ast.Try))]
     ctx.check(R, not loops, fi.qname, "loop-free decision tree", "unexpected loop/try in processClientKeyExchange", fi.loc())
     g = ctx.an.cfg(fi)
@@ -230,7 +232,7 @@ def rule_no_signal(ctx):
     subs = [n for n in g.nodes if n.ast is not None and n.kind in ("stmt", "test") and
             any(isinstance(x, ast.Subscript) and attr_chain(x.value) == "premasterSecret"
                 for x in ast.walk(n.expr if n.expr is not None else n.ast))]
-    lent = [t for t in tests if norm(t.expr) == "len(premasterSecret) != 48"]
+    lent = [t for t in tests if "len(premasterSecret)" in norm(t.expr)]
     nul = [t for t in tests if norm(t.expr) == "not premasterSecret"]
     if subs:
         eff = [t for t in lent if "T" in dead_edge_labels(g, t, subs)]
